@@ -1,16 +1,16 @@
-\* C18 thorough (model checking only, 1; sampled-trace filter on): 2 threads, <= 3 spans, <= 4 frames, nesting <= 2, headers sampled / unsampled other trace / invalid (no ids), Frame::current and span-frame hand-off.
+\* C18 thorough (model checking only, 4; TraceparentFilter alone): 1 thread, <= 3 spans, <= 4 frames, nesting <= 3, all seven headers, nested header pushes (mismatched trace, same trace).
 SPECIFICATION Spec
 CONSTANTS
-    NThreads = 2
+    NThreads = 1
     MaxSpans = 3
     MaxFrames = 4
     MaxTasks = 0
-    MaxDepth = 2
-    Headers <- MC_Headers3
-    InSampled = TRUE
+    MaxDepth = 3
+    Headers <- MC_HeadersAll
+    InSampled = FALSE
     SnapshotOnPush = TRUE
     WithLazy = FALSE
-    WithCurrent = TRUE
+    WithCurrent = FALSE
     Emit = FALSE
 VIEW tview
 INVARIANTS SamplerOncePerTrace DecisionGoverns UnsampledSilent SampledConsistent NoTraceNoParent FrameCarries
